@@ -1,6 +1,6 @@
 (** Property C15 — multi-asset values obey the algebra that balance computations assume.
     Nothing but statements closed by [exact] and their assumptions. *)
-From Tx3 Require Import Base Assets Assets_proofs.
+From Tx3 Require Import Base Assets Assets_proofs Assets_wf.
 
 Theorem C15_add_comm : forall a b, a_add a b ≈ a_add b a.
 Proof. exact add_comm. Qed.
@@ -37,6 +37,15 @@ Proof. exact contains_total_spec. Qed.
 Theorem C15_exprs_roundtrip : forall a ord, wf_classes a = true -> ord ≡ₚ map_to_list a ->
   exists a', of_exprs (to_exprs_ord ord) = Ok a' /\ a' ≈ a.
 Proof. exact exprs_roundtrip. Qed.
+(** ... and without a premise for every value the property quantifies over: built through any
+    constructor (from_class_and_amount with a hand-made class and expression lists included) and
+    closed under +, - and negation (finding F15-2, repaired: from_class_and_amount kept an empty
+    policy or name as given) *)
+Theorem C15_built_values_well_formed : forall a, built a -> wf_classes a = true.
+Proof. exact built_wf. Qed.
+Theorem C15_exprs_roundtrip_built : forall a ord, built a -> ord ≡ₚ map_to_list a ->
+  exists a', of_exprs (to_exprs_ord ord) = Ok a' /\ a' ≈ a.
+Proof. exact exprs_roundtrip_built. Qed.
 (** the structural `==` of the pinned tree (finding F15-1, repaired) was not semantic *)
 Theorem C15_struct_eq_refuted : exists a b, a ≈ b /\ eq_struct a b = false.
 Proof. exact eq_struct_semantic_refuted. Qed.
@@ -55,4 +64,6 @@ Print Assumptions C15_eq_semantic.
 Print Assumptions C15_congruence.
 Print Assumptions C15_contains_order.
 Print Assumptions C15_exprs_roundtrip.
+Print Assumptions C15_built_values_well_formed.
+Print Assumptions C15_exprs_roundtrip_built.
 Print Assumptions C15_struct_eq_refuted.
